@@ -9,9 +9,11 @@
   pairing table.  "The peer demonstrated knowledge of the code for this very exchange" = `goodM3`:
   on the SRP session created by the most recent served M1, an M3 whose proof equals the proof
   expected for its own `A`, with `A mod N ≠ 0`.  That only a party knowing the code can produce such a
-  proof for `A ≢ 0` is the SRP-6a assumption (DESIGN 2.2; symbolic layer not built, see TRUSTED).
+  proof for `A ≢ 0` is the SRP-6a assumption (DESIGN 2.2); it enters `C01_symbolic` as the shape of a
+  free term algebra (Proofs/PairSetupSym.lean), not as an axiom.
 -/
 import Proofs.PairSetup
+import Proofs.PairSetupSym
 import HapModel.Gen.SrpGroup
 namespace Hap.C01
 open Hap Hap.Tlv Hap.Srp Hap.PairSetup
@@ -168,7 +170,29 @@ theorem C01_repaired_refuses_the_attack :
 theorem C01_hap_group : 1 < Gen.hapGroup.N ∧ Nat.Coprime Gen.hapGroup.g Gen.hapGroup.N := by
   refine ⟨by decide +kernel, by decide +kernel⟩
 
+/-- **Dolev–Yao secrecy** (symbolic model of the repaired accessory, attacker alone): if the attacker's
+    initial knowledge is safe — it contains neither the setup code nor honest secrets nor session
+    secrets in an extractable position — then no state reachable by sending derivable messages in any
+    order has a successful M3 (O1), an accepted M5 (O2) or a recorded pairing (O3), and the knowledge
+    stays safe (the code is never learnt).  SRP hardness is the shape of the algebra: the session
+    secret for `A ≠ zero` is an opaque constructor derivable only with the code. -/
+theorem C01_symbolic (s0 s : PairSetupSym.SState) (h0 : ∀ t, s0.kn t → PairSetupSym.safe t)
+    (hv0 : s0.verified = false) (hp0 : s0.paired = none) (hr : PairSetupSym.Reach true s0 s) :
+    (∀ t, s.kn t → PairSetupSym.safe t) ∧ s.verified = false ∧ s.paired = none :=
+  PairSetupSym.sym_secure s0 s h0 hv0 hp0 hr
+
+/-- the same symbolic accessory without the `A ≠ zero` test (the shipped code): an attacker knowing only
+    public values gets its own key paired (`A = zero`, proof from public data, M5 under `H(zero)`). -/
+theorem C01_symbolic_legacy_attack :
+    ∃ s, PairSetupSym.Reach false PairSetupSym.init s ∧
+      s.paired = some (PairSetupSym.Tm.nonce 7, PairSetupSym.Tm.pk (PairSetupSym.Tm.nonce 9)) :=
+  PairSetupSym.sym_legacy_attack
+
 /-! ### non-vacuity -/
+
+/-- the premises of `C01_symbolic` hold for the attacker that knows all public values -/
+example : (∀ t, PairSetupSym.init.kn t → PairSetupSym.safe t) ∧ PairSetupSym.init.verified = false ∧
+    PairSetupSym.init.paired = none := ⟨PairSetupSym.init_safe, rfl, rfl⟩
 
 /-- the gate's premises are reachable and its conclusion is not vacuous: an honest exchange on the
     toy instance produces O1, O2 and O3, each with the ghost set -/
